@@ -153,3 +153,44 @@ def build(ck):
                      tag='structures-swapped', exact=False)
         ck.explore(f'{BL}.{CLS[kind]}.transpose', block_transpose, T, axioms=axioms,
                    contracts={**A.block_structure_contracts(), **A.container_callee_contracts(P)})
+
+
+    # ------------------------------------------------------------------ Toast observation matrix and its transpose
+    class MatrixV(Value):
+        """a (sparse) square matrix token: `.T` flips the flag, `M @ x` records the product (dependency: CSR @, CSR.T)"""
+
+        def __init__(self, name, transposed=False):
+            self.name, self.transposed = name, transposed
+
+        def py_getattr(self, interp, name):
+            if name == 'T':
+                return MatrixV(self.name, not self.transposed)
+            if name == 'shape':
+                n = z3.Int(self.name + '_n')
+                return (n, n)
+            if name == 'dtype':
+                return z3.Const(self.name + '_dtype', A.Struct)
+            raise Unsupported(f'matrix attribute {name}')
+
+        def py_binop(self, interp, op, other, refl):
+            if op == 'MatMult' and not refl:
+                return ('matvec', self.name, self.transposed, other)
+            return B.NOT_IMPLEMENTED
+
+    def toast(S):
+        M = MatrixV('M')
+        o = S.new('ToastObservationMatrixOperator', matrix=M)
+        x = z3.Const('x', A.Struct)
+        y = S.call(S.I.getattr(o, 'mv'), [x])
+        S.oblige('post', y.normal and y.value == ('matvec', 'M', False, x), tag='mv-is-matrix-times-x')
+        t = S.call(S.I.getattr(o, 'transpose'), [])
+        ok = t.normal and isinstance(t.value, Obj) and t.value.cls.name == 'ToastObservationMatrixTransposeOperator' \
+            and t.value.fields.get('operator') is o
+        S.oblige('post', bool(ok), tag='transpose-wraps-self')
+        if ok:
+            ty = S.call(S.I.getattr(t.value, 'mv'), [x])
+            S.oblige('post', ty.normal and ty.value == ('matvec', 'M', True, x), tag='transpose-mv-is-transposed-matrix-times-x')
+            tt = S.call(S.I.getattr(t.value, 'transpose'), [])
+            S.oblige('post', tt.normal and tt.value is o, tag='transpose-of-transpose-is-the-operator')
+    T.externals['jax.ShapeDtypeStruct'] = lambda interp, shape, dtype, **k: ('sds', shape, dtype)
+    ck.explore('furax.toast.obs_matrix.ToastObservationMatrixOperator.transpose', toast, T, axioms=axioms)
